@@ -193,23 +193,6 @@ theorem outOfRange_mono_int (lo hi olo ohi : Option Int) (n : Int)
         simp only [Option.map_some, Num.lt_ofInt, Num.lt_ofInt'', Bool.not_eq_true', decide_eq_false_iff_not] at h2 v2 ⊢
         omega
 
-/-- What a non-frozen `Int` spec accepts. -/
-theorem accepts_int (env : Env) (lo hi : Option Int) (f : Flags) (hf : f.frozen = false) (v : Val) :
-    accepts env (.int lo hi f) v =
-      match v with
-      | .none => f.noneable
-      | .int i => !outOfRange (lo.map Num.ofInt) (hi.map Num.ofInt) ⟨i, 0⟩
-      | .bool b => !outOfRange (lo.map Num.ofInt) (hi.map Num.ofInt) ⟨if b then 1 else 0, 0⟩
-      | _ => false := by
-  cases v <;>
-    simp [accepts, apply, gate, hf, Val.isMissing, Val.isNone, typeCheck, instOf, Val.ty, Ty.sub, convert,
-      isOk, bind, Except.bind, rangeCheck, Val.num?]
-  · cases f.noneable <;> simp [isOk]
-  · rename_i b
-    cases outOfRange (lo.map Num.ofInt) (hi.map Num.ofInt) ⟨if b then 1 else 0, 0⟩ <;> rfl
-  · rename_i i
-    cases outOfRange (lo.map Num.ofInt) (hi.map Num.ofInt) ⟨i, 0⟩ <;> rfl
-
 /-- Integer range specs (any bounds, any noneable / default flags on either side, both
 non-frozen): compatibility is sound for every value.  Excluded: a frozen receiver (`hf'`, F09) and
 a frozen other spec (`hb`, F40). -/
